@@ -235,6 +235,30 @@ fn probe_solve(func: &str) -> bool {
                 report("probe", func, &format!("{} with one site / one datum removed", what), "Ok", "Err", false);
                 return true;
             }
+            // every combination of (too few / too many sites) x (least squares allowed or not): Err unless more sites AND least squares
+            {
+                let mut more_tau = tau.clone();
+                let mut more_y = y.clone();
+                let extra = 0.5 * (tau[0] + tau[tau.len() - 1]) + 0.0123;
+                more_tau.insert(tau.len() / 2, extra);
+                more_y.insert(y.len() / 2, 0.0);
+                more_tau.sort_by(|a, b| a.partial_cmp(b).unwrap());
+                let cases: Vec<(&str, Vec<f64>, Vec<f64>, bool, bool)> = vec![
+                    ("one site too few, least squares allowed", tau[1..].to_vec(), y[1..].to_vec(), true, true),
+                    ("one site too few, least squares not allowed", tau[1..].to_vec(), y[1..].to_vec(), false, true),
+                    ("one site too many, least squares not allowed", more_tau.clone(), more_y.clone(), false, true),
+                    ("sites and data of different length, least squares allowed", tau.clone(), y[1..].to_vec(), true, true),
+                ];
+                for (why, tt, yy, lsq, must_err) in cases {
+                    let mut s3 = PPSpline::<f64>::new(k, t.clone(), None);
+                    let r = std::panic::catch_unwind(std::panic::AssertUnwindSafe(|| s3.csolve(&tt, &yy, left_n, right_n, lsq).is_err()));
+                    match r {
+                        Ok(e) if e == must_err => {}
+                        Ok(_) => { report("probe", func, &format!("{}: {}", what, why), "Ok", "Err", false); return true; }
+                        Err(_) => { report("probe", func, &format!("{}: {}", what, why), "PANIC", "Err", false); return true; }
+                    }
+                }
+            }
             // dual data: sensitivity to datum j == spline solved on the j-th unit vector
             let yd: Vec<Dual> = y.iter().enumerate().map(|(j, v)| Dual::new(*v, vec![format!("y{}", j)])).collect();
             let mut sd = PPSpline::<Dual>::new(k, t.clone(), None);
